@@ -13,12 +13,12 @@ granularity is an operation sequence, so quantifying over all operation sequence
 interleavings, any number of callers, any names.  Tied to /repo by running the same scripts on a real
 actor system with gates inside PreStart / PostStop (tools/props/c11.py).
 
-Result: FALSE of the current code when a spawn races a stop of the same path (`C11_refuted`, finding
-C11-F1): the caller receives the stopping PID (or, for SpawnChild, an uninserted one), a second instance
-keeps running outside the tree, the actor count no longer equals the number of running user actors, and
-a later spawn makes two instances of the path run at once.
-`C11_partial`: for every interleaving of spawn phases (any kinds, names, number of callers) with no stop
-in flight, the full statement holds.
+Result: still FALSE of the current code (`C11_refuted`, finding C11-F3): a SpawnChild whose PreStart is running
+while its parent is stopped completes outside the tree; once parent and child are spawned again two instances of
+the child's path run.  Two earlier defects are FIXED in /repo and their witnesses are now positive theorems:
+`witness_stop_race_fixed` (C11-F1, f0fff1d) and `witness_name_index_fixed` (C11-F2, 38faff1).
+`C11_partial`: for every interleaving of spawn phases (any kinds, names, number of callers) with no stop in
+flight, the full statement holds.
 -/
 import GoaktVerif.Lemmas.C11Run
 
@@ -44,38 +44,24 @@ def C11_full : Prop := ∀ ops : List Op, Holds (run St.init ops).1 (run St.init
 def witness : List Op :=
   [.full ⟨.spawn, ["a"]⟩, .kBegin ["a"], .full ⟨.spawn, ["a"]⟩, .kEnd ["a"], .full ⟨.spawn, ["a"]⟩]
 
-/-- what the witness produces: the second caller gets process 0 flagged NOT running; after the stop has
-settled the count is 0 with one actor running; the third spawn makes two instances of "a" run at once -/
-theorem witness_outputs :
-    (outPids ((run St.init (witness.take 3)).2.getD 2 .none) = [(0, false)]) ∧
-    ((run St.init (witness.take 4)).1.counter = 0 ∧ runningCount (run St.init (witness.take 4)).1 = 1) ∧
-    liveCount (run St.init witness).1 ["a"] = 2 := by
+/-- former finding C11-F1 (fixed by f0fff1d: a spawn that finds its name held by a stopping actor fails with
+ErrActorAlreadyExists instead of starting a second instance): the racing caller gets an error, nothing leaks,
+the count stays exact, and the spawn issued after the stop has settled creates the only instance -/
+theorem witness_stop_race_fixed :
+    (outPids ((run St.init (witness.take 3)).2.getD 2 .none) = []) ∧
+    ((run St.init (witness.take 4)).1.counter = 0 ∧ runningCount (run St.init (witness.take 4)).1 = 0) ∧
+    liveCount (run St.init witness).1 ["a"] = 1 := by
   decide
 
-theorem C11_refuted : ¬ C11_full := by
-  intro h
-  have hlen : 2 < (run St.init (witness.take 3)).2.length := by decide
-  have hmem : (run St.init (witness.take 3)).2.getD 2 .none ∈ (run St.init (witness.take 3)).2 := by
-    simp [List.getD, List.getElem?_eq_getElem hlen]
-  have h3 := (h (witness.take 3)).1 ((run St.init (witness.take 3)).2.getD 2 .none) hmem 0 false
-    (by rw [witness_outputs.1]; exact List.mem_singleton.mpr rfl)
-  cases h3
-
-/-- a second, sequential refutation (finding C11-F2): a child named like a top-level actor takes over the
-name index entry; stopping the child deletes the entry; the next Spawn of the top-level name starts a second
-instance of that path -/
+/-- former finding C11-F2 (fixed by 38faff1: the name index hands a shared name back when the node that took it
+over is deleted): a child named like a top-level actor, stopped again, no longer hides the top-level actor -/
 def witnessNameIndex : List Op :=
   [.full ⟨.spawn, ["x"]⟩, .full ⟨.spawn, ["a"]⟩, .full ⟨.child, ["a", "x"]⟩, .kill ["a", "x"], .full ⟨.spawn, ["x"]⟩]
 
-theorem witness_name_index : liveCount (run St.init witnessNameIndex).1 ["x"] = 2 := by decide
+theorem witness_name_index_fixed :
+    liveCount (run St.init witnessNameIndex).1 ["x"] = 1 ∧ (run St.init witnessNameIndex).1.counter = 2 := by decide
 
-theorem C11_refuted_name_index : ¬ C11_full := by
-  intro h
-  have := (h witnessNameIndex).2.2.1 ["x"]
-  rw [witness_name_index] at this
-  omega
-
-/-- a third refutation (finding C11-F3): a SpawnChild held in PreStart while its parent is stopped completes
+/-- THE REFUTATION (finding C11-F3, the one defect still open): a SpawnChild held in PreStart while its parent is stopped completes
 anyway ("parent pid does not exist" is not treated as a failure): the child runs outside the tree; once the
 parent and the child are spawned again two instances of the child's path run -/
 def witnessOrphan : List Op :=
@@ -84,7 +70,7 @@ def witnessOrphan : List Op :=
 
 theorem witness_orphan : liveCount (run St.init witnessOrphan).1 ["a", "x"] = 2 := by decide
 
-theorem C11_refuted_orphan_child : ¬ C11_full := by
+theorem C11_refuted : ¬ C11_full := by
   intro h
   have := (h witnessOrphan).2.2.1 ["a", "x"]
   rw [witness_orphan] at this
